@@ -104,6 +104,11 @@ func build(ns []int, pat string, withMeta bool) ([]byte, [][]expectEv) {
 			m := midi.ControlChange(uint8(tr), uint8(i), uint8(100+tr))
 			t.Add(d, m)
 			exp[tr] = append(exp[tr], expectEv{tr, m, tick, false})
+			if withMeta && i%5 == 3 {
+				// the very same message once more on the same tick (a doubled controller value)
+				t.Add(0, m)
+				exp[tr] = append(exp[tr], expectEv{tr, m, tick, false})
+			}
 			if withMeta && i%3 == 1 {
 				t.Add(0, smf.MetaText("x"))
 				if tr == 0 && i == 4 {
@@ -135,18 +140,25 @@ func dense(ns []int) string {
 }
 
 func play(data []byte, exp [][]expectEv, ns []int, pat string, withMeta bool, sel []int, mp map[int]string) {
-	playVariant(data, exp, ns, pat, withMeta, sel, mp, false, false)
+	playVariant(data, exp, ns, pat, withMeta, sel, mp, false, false, false)
 	if len(mp) == 2 && len(sel) != 1 {
 		// Only(ControlChangeMsg): the other message types are skipped, nothing else changes
-		playVariant(data, exp, ns, pat, withMeta, sel, mp, true, false)
+		playVariant(data, exp, ns, pat, withMeta, sel, mp, true, false, false)
+	}
+	if len(mp) == 2 && len(sel) == 0 {
+		// Only with two types that together cover everything: nothing is skipped, nothing doubled
+		playVariant(data, exp, ns, pat, withMeta, sel, mp, false, false, true)
 	}
 	if len(mp) == 1 && mp[-1] == "B" {
 		// the same reader played a second time, into a port whose Send takes time
-		playVariant(data, exp, ns, pat, withMeta, sel, mp, false, true)
+		playVariant(data, exp, ns, pat, withMeta, sel, mp, false, true, false)
 	}
 }
 
-func playVariant(data []byte, expAll [][]expectEv, ns []int, pat string, withMeta bool, sel []int, mp map[int]string, only bool, twice bool) {
+func playVariant(data []byte, expAll [][]expectEv, ns []int, pat string, withMeta bool, sel []int, mp map[int]string, only bool, twice bool, both bool) {
+	if both {
+		pat += "+only-two-types"
+	}
 	ctx.Eval()
 	vtime.Reset()
 	exp := expAll
@@ -174,6 +186,9 @@ func playVariant(data []byte, expAll [][]expectEv, ns []int, pat string, withMet
 	if only {
 		tr = tr.Only(midi.ControlChangeMsg)
 	}
+	if both {
+		tr = tr.Only(midi.ControlChangeMsg, midi.ProgramChangeMsg)
+	}
 	if twice {
 		for _, p := range ports {
 			p.cost = 60 * time.Millisecond
@@ -187,7 +202,7 @@ func playVariant(data []byte, expAll [][]expectEv, ns []int, pat string, withMet
 		return
 	}
 	var err error
-	viaPlay := !only && !twice && len(mp) == 1 && mp[-1] == "A" && len(ns)%2 == 1
+	viaPlay := !only && !twice && !both && len(mp) == 1 && mp[-1] == "A" && len(ns)%2 == 1
 	c := engine.Catch(func() {
 		if viaPlay {
 			// Play(out) is documented as MultiPlay with the port as default; it opens the port
